@@ -56,9 +56,23 @@ enum Op {
     ClearVariables,
     SetFunction,
     SetVariable,
+    /// define a user function named n that records its argument and then fails
+    SetFailingFunction,
+    /// continue with a context that was overwritten by `clone_from` (its previous switch was the opposite)
+    CloneFrom,
 }
 
-const OPS: [Op; 7] = [Op::Disable, Op::Enable, Op::CloneIt, Op::ClearFunctions, Op::ClearVariables, Op::SetFunction, Op::SetVariable];
+const OPS: [Op; 9] = [
+    Op::Disable,
+    Op::Enable,
+    Op::CloneIt,
+    Op::ClearFunctions,
+    Op::ClearVariables,
+    Op::SetFunction,
+    Op::SetVariable,
+    Op::SetFailingFunction,
+    Op::CloneFrom,
+];
 
 type Log = Arc<Mutex<Vec<RV>>>;
 
@@ -99,6 +113,26 @@ fn apply(real: &mut HCtx, model: &mut RCtx, op: &Op, n: &str, log: &Log) {
         Op::SetVariable => {
             real.set_value(n.to_string(), Value::Int(5)).unwrap();
             model.vars.insert(n.to_string(), RV::Int(5));
+        },
+        Op::SetFailingFunction => {
+            let l = log.clone();
+            real.set_function(
+                n.to_string(),
+                Function::new(move |a| {
+                    l.lock().unwrap().push(RV::from_ev(a));
+                    Err(EvalexprError::CustomMessage("user function fails".into()))
+                }),
+            )
+            .unwrap();
+            model.funcs.insert(n.to_string(), RFn::Fail("user function fails".into()));
+        },
+        Op::CloneFrom => {
+            // a target that already has content and the opposite switch
+            let mut target = HCtx::new();
+            target.set_builtin_functions_disabled(!real.are_builtin_functions_disabled()).unwrap();
+            target.set_value("stale".into(), Value::Int(1)).unwrap();
+            target.clone_from(real);
+            *real = target;
         },
     }
 }
@@ -174,7 +208,7 @@ fn cfg_name(h: &[Op]) -> String {
 }
 
 pub fn run(cfg: &Cfg) -> Report {
-    let depth = cfg.tier.pick(4, 6);
+    let depth = cfg.tier.pick(4, 5);
     let names = names();
     let mut stats = par_items(&names, |_, n| {
         let mut st = Stats::new();
@@ -255,7 +289,7 @@ pub fn run(cfg: &Cfg) -> Report {
     Report {
         property: ID,
         level: "model_checking",
-        rule: format!("for each of 52 names (49 builtins, foo, math::foo, str::nothing): every history of length <= {depth} over {{disable builtins, enable, clone-and-continue, clear_functions, clear_variables, define user function n, bind variable n}} from an empty HashMapContext (contains the complete switch x user-function x variable x {{as built, clone, cleared}} matrix), plus EmptyContext and EmptyContextWithBuiltinFunctions; in every configuration reached, 15 call forms (`n(x)`, `n x` with int and string, `n()`, `n(x, y)`, `n(x, y, z)`, `typeof n x`, `n typeof x`, bare `n`, `n + 1`); oracle: reference resolution (user function first with the documented argument shape, recorded; else builtin table of C10 if enabled; else unknown function) . States = configurations, transitions = evaluations. Non-trivial = configurations reached by >= 2 operations"),
+        rule: format!("for each of 52 names (49 builtins, foo, math::foo, str::nothing): every history of length <= {depth} over {{disable builtins, enable, clone-and-continue, clone_from into a used context, clear_functions, clear_variables, define user function n, define failing user function n, bind variable n}} from an empty HashMapContext (contains the complete switch x user-function x variable x {{as built, clone, cleared}} matrix), plus EmptyContext and EmptyContextWithBuiltinFunctions; in every configuration reached, 15 call forms (`n(x)`, `n x` with int and string, `n()`, `n(x, y)`, `n(x, y, z)`, `typeof n x`, `n typeof x`, bare `n`, `n + 1`); oracle: reference resolution (user function first with the documented argument shape, recorded; else builtin table of C10 if enabled; else unknown function) . States = configurations, transitions = evaluations. Non-trivial = configurations reached by >= 2 operations"),
         nontrivial_set: "counter:nontrivial-distinct",
         exhaustive: true,
         bound_completed: format!("histories of length {depth}"),
